@@ -270,8 +270,12 @@ PROPS["C04"] = dict(
                "linked map carries the lawful merge, the former ids are emptied, every other slot is untouched; mirror image "
                "with the split law), and through the 2-sew and the 2-unsew in their three shapes (one end, the other end, both ends "
                "= two lawful merges / splits in sequence: C04_two_sew_vertex_data_{left,right,both}, "
-               "C04_two_unsew_vertex_data_{left,right,both}); attribute kinds other than coordinates: per observation "
-               "(partial, see DESIGN.md)",
+               "C04_two_unsew_vertex_data_{left,right,both}); and for every other registered attribute kind, with its own "
+               "merge / split law and injected law failures (C04_one_sew_attr_data, C04_one_unsew_attr_data, "
+               "C04_two_sew_attr_data_{none,left,right,both}, C04_two_unsew_attr_data_{none,left,right,both}: vertex-bound "
+               "kinds at the ends that meet, edge-bound kinds under the edge identifiers, other kinds untouched; "
+               "Map2/SewAttr.v). The Coq specification of the data clauses is moreover applied to every implementation "
+               "observation (Sew2Oracle)",
     technique="Coq proof (topology clause) + extracted Coq specification of the data clauses as oracle + correspondence",
     families=[
         Family("grid2", "core2", r_grid2, 1, [(6, "sew2_spec", SEW_CLASSES)]),
